@@ -226,6 +226,81 @@ def run(chk):
         chk.violation("C15.rangelex", hr, "re.findall(r'^bytes=(\\d*)-(\\d*)$', rng, re.ASCII)", "", "Range parsing is no longer lexically gated")
     conditional_rules(chk, repo)
     hunt3_rules(chk, repo)
+    hunt4_rules(chk, repo)
+
+
+def hunt4_rules(chk, repo):
+    """Rules written after the fourth defect hunt (F266-F269)."""
+    import re as _re
+    from sa.consteval import Folder, NotConst, RegexConst
+    UD = "aiohttp/web_urldispatcher.py"
+    WRP = "aiohttp/web_response.py"
+    folder = Folder(repo)
+    po = repo.func(FR, "FileResponse._prepare_open_file")
+    # ---- C15.rangeset: a syntactically valid set of ranges is not answered 416 (multipart/byteranges is not implemented: the header is ignored) --------
+    guard = None
+    for c in prog.calls_in(po.node):
+        if isinstance(c.func, ast.Attribute) and c.func.attr in ("fullmatch", "match") and c.args and "range" in norm.text(c.args[0], c).lower():
+            try:
+                rx = folder.eval(repo.module(FR), c.func.value)
+            except NotConst:
+                continue
+            if isinstance(rx, RegexConst):
+                cre = _re.compile(rx.pattern, rx.flags)
+                m = getattr(cre, c.func.attr)
+                if all(m(x) for x in ("bytes=0-1,3-4", "bytes=0-0, -1", "bytes=5-,0-1")) and not any(m(x) for x in ("bytes=0-1", "bytes=-5", "blocks=0-10", "bytes=0-1,")):
+                    guard = c
+    offs = [a for a in ast.walk(po.node) if isinstance(a, ast.Assign) and norm.raw(a.targets[0]) == "process_range" and guard is not None and a.lineno > guard.lineno
+            and any(id(guard) in {id(x) for x in ast.walk(i.test)} for i in prog.enclosing(a, (ast.If,)))]
+    uses = [c for c in ast.walk(po.node) if isinstance(c, ast.Attribute) and c.attr == "http_range"]
+    if guard is not None and offs and uses and offs[0].lineno < uses[0].lineno:
+        chk.ok("C15.rangeset", guard, "a Range header listing several ranges switches range processing off (200 with the whole file) unless none of them is satisfiable")
+    else:
+        chk.violation("C15.rangeset", uses[0] if uses else po, "rng = request.http_range", "if process_range and <multi-range pattern>.fullmatch(<Range value>): process_range = <no range satisfiable>",
+                      "`Range: bytes=0-1,3-4` on a 10-byte file is answered 416 with `Content-Range: bytes */10`: request.http_range accepts one range only and every ValueError becomes 416, although each of the ranges alone gets 206 (RFC 9110 14.2: a server may ignore the header; 416 is for `no range overlaps the file`)")
+    # ---- C15.prepare.once: an override of prepare() starts with the guard of StreamResponse.prepare() ------------------------------------------------------
+    npo = 0
+    for rel, cname in ((FR, "FileResponse"), ("aiohttp/web_ws.py", "WebSocketResponse")):
+        c = repo.cls(rel, cname)
+        m = c.methods.get("prepare")
+        if m is None:
+            continue
+        npo += 1
+        body = [st for st in m.node.body if not (isinstance(st, ast.Expr) and isinstance(st.value, ast.Constant))]
+        head = body[: 2]
+        g_writer = any(isinstance(i, ast.If) and norm.raw(i.test) == "self._payload_writer is not None" and any(isinstance(x, ast.Return) for x in i.body) for i in head)
+        g_sent = any(isinstance(i, ast.If) and norm.raw(i.test) == "self._eof_sent" and any(isinstance(x, ast.Return) for x in i.body) for i in head)
+        if g_writer and (g_sent or cname != "FileResponse"):
+            chk.ok("C15.prepare.once", m, f"{cname}.prepare() returns at once for a response that is already prepared" + (" / sent" if g_sent else ""))
+        else:
+            chk.violation("C15.prepare.once", m, f"{cname}.prepare", "if self._eof_sent: return None; if self._payload_writer is not None: return self._payload_writer",
+                          f"{cname}.prepare() has no early return for a response that was prepared already: a handler that awaits resp.prepare(request) itself and returns the response (the usual way to delete a temporary file after sending it) has it prepared again by finish_response() - the file is opened again, set_status() runs on a sent response and an assertion closes the connection after every request (under -O the file is sent twice after one Content-Length)")
+    chk.expect_count("C15.prepare.once", npo, 2, "overrides of StreamResponse.prepare()")
+    # ---- C15.coding.weight: whoever chooses a content-coding from Accept-Encoding drops the members with weight 0 first ---------------------------------
+    nae = 0
+    for rel in (FR, WRP):
+        for fn in repo.module(rel).functions.values():
+            reads = [c for c in prog.calls_in(fn.node) if isinstance(c.func, ast.Attribute) and c.func.attr == "get" and c.args and norm.raw(c.args[0]) == "hdrs.ACCEPT_ENCODING"]
+            if not reads:
+                continue
+            nae += 1
+            scope = fn.cls.node if fn.cls is not None else fn.node  # the value may be handed to another method of the class
+            if any(isinstance(c, ast.Call) and norm.raw(c.func).endswith("_has_zero_weight") for c in ast.walk(scope)):
+                chk.ok("C15.coding.weight", reads[0], f"{fn.qualname}: codings listed with q=0 are left out before one is chosen")
+            else:
+                chk.violation("C15.coding.weight", reads[0], K.short(reads[0], 60), "drop the members for which _has_zero_weight(member) before testing membership",
+                              f"{fn.qualname} tests `coding in accept_encoding` on the raw header text: `Accept-Encoding: gzip;q=0` (the client refuses gzip) gets a gzip body from enable_compression(), `deflate;q=0, gzip` gets deflate")
+    chk.expect_count("C15.coding.weight", nae, 2, "functions that choose a content-coding from Accept-Encoding")
+    # ---- C15.dirtarget: a name that asks for a directory is not answered with a regular file -------------------------------------------------------------------
+    rp = repo.func(UD, "StaticResource._resolve_path_to_response")
+    nf = [r for r, cn_ in K.raises_in(rp) if cn_ == "HTTPNotFound" and any(not l.pos and "is_dir()" in l.text for l in PC.units(PC.pc(r, raw=True)))]
+    hd = repo.func(UD, "StaticResource._handle")
+    asks = [a for a in ast.walk(hd.node) if isinstance(a, ast.Compare) and any(isinstance(x, ast.Constant) and x.value == "" for x in ast.walk(a)) and "filename" in norm.raw(a)]
+    if nf and asks:
+        chk.ok("C15.dirtarget", nf[0], "a request whose last path segment is empty, `.` or `..` is answered 404 when the target is not a directory (pathlib would drop the segment and open the file)")
+    else:
+        chk.violation("C15.dirtarget", rp, "file_path.is_dir()", "elif <the name asks for a directory>: raise HTTPNotFound()",
+                      "`/static/f.txt/`, `/static/f.txt/.` and `/static/f.txt%2F` return 200 with the bytes of f.txt: the raw remainder is joined onto the root and pathlib drops trailing slashes and `.` segments before the file system is asked (which would answer ENOTDIR)")
 
 
 def hunt3_rules(chk, repo):
